@@ -1,5 +1,8 @@
 import XmppModel.Prelude.Hex
 import XmppModel.Model.Correlate
+import XmppModel.Model.CorrAttrs
+import XmppModel.Model.CorrWrap
+import XmppModel.Model.CorrExpect
 import XmppModel.Driver.C15
 import XmppModel.Driver.C18
 /-! Driver module for C06: replays an observed trace of a forced schedule on the LTS of
@@ -13,6 +16,9 @@ enabled in the model (trace inclusion), `bad@n:tok` otherwise.
       d<i> caller reads the response to its end (or into the error in its content: suffix X of p…)
       p<kind><id><r|e|n|g|t>[S] peer stanza (r result, e error; n normal, g get, t set are never
         looked up; S: explicit other stanza namespace)   H<k> handler got stanza k
+        optional suffix +<items>: decoy attributes, 4 characters each: form q (x:NAME in a foreign
+        namespace) | n (declaration xmlns:NAME), NAME i (id) | t (type), value (digit | r e g t),
+        place b (in front of the stanza's own attributes) | a (behind them)
       g serve loop enters the hand-off select   h serve loop starts waiting for the close
       C the application closes the output stream (later transmissions fail before they write)
       f<i> right after c<i> on a broken / closed output: the call failed at once
@@ -60,6 +66,29 @@ def settle (cfg : Cfg) (s : St) : St :=
 
 def numOf (cs : List Char) : Option Nat := (String.ofList cs).toNat?
 
+def typeVal (c : Char) : Nat :=
+  if c = 'r' then 0 else if c = 'e' then 1 else if c = 'g' then 2 else if c = 't' then 3 else 4
+
+/-- decoy attributes placed at `place` (`b` / `a`) -/
+def parseDecoys (place : Char) : List Char → Option (List CorrAttrs.Attr)
+  | [] => some []
+  | f :: n :: v :: p :: rest => do
+    let sp ← if f = 'q' then some CorrAttrs.Space.foreign else if f = 'n' then some CorrAttrs.Space.xmlns else none
+    let (loc, val) ← if n = 'i' then (do let d ← (String.ofList [v]).toNat?; pure (CorrAttrs.Loc.id, d))
+                     else if n = 't' then some (CorrAttrs.Loc.type, typeVal v) else none
+    let more ← parseDecoys place rest
+    if p = place then pure (⟨sp, loc, val⟩ :: more) else if p = 'a' ∨ p = 'b' then pure more else none
+  | _ => none
+
+/-- the part of a peer token in front of the decoy suffix -/
+def baseTok (t : String) : String := match t.splitOn "+" with | a :: _ => a | [] => t
+
+/-- a get / set IQ: the serve loop answers it itself if no handler does (it has to write) -/
+def isRequestTok (t : String) : Bool :=
+  let b := (baseTok t).toList
+  let b := if b.getLast? = some 'S' then b.dropLast else b
+  b.getLast? = some 'g' || b.getLast? = some 't'
+
 def applyTok (cfg : Cfg) (s : St) (tok : String) : Option St :=
   match tok.toList with
   | 'c' :: r => do let i ← numOf r; step cfg s (.call i)
@@ -97,17 +126,28 @@ def applyTok (cfg : Cfg) (s : St) (tok : String) : Option St :=
         steps cfg s [.timeout i, .dereg i]
       else none
     | _ => none
-  | 'p' :: kc :: r0 => do
+  | 'p' :: kc :: rAll => do
     let kind ← parseKind kc
+    let (r0, decoy) := match (String.ofList rAll).splitOn "+" with
+      | [a, d] => (a.toList, d.toList)
+      | _ => (rAll, [])
     -- optional trailing S: the stanza carries the other stanza namespace explicitly
     let (r1, ns) := if r0.getLast? = some 'S' then (r0.dropLast, Ns.other) else (r0, Ns.stream)
     -- optional X: the content of the stanza cannot be read to its end (malformed / truncated)
     let (r, bad) := if r1.getLast? = some 'X' ∨ r1.getLast? = some 'T' then (r1.dropLast, true) else (r1, false)
     let t ← r.getLast?
-    let id ← numOf r.dropLast
+    let ownId ← numOf r.dropLast
     -- r result, e error: looked up;  n normal / g get / t set: never looked up
-    let resp ← if t = 'r' ∨ t = 'e' then some true else if t = 'n' ∨ t = 'g' ∨ t = 't' then some false else none
-    step cfg (settle cfg s) (.read ⟨kind, id, resp, ns, bad⟩)
+    let _ ← if t = 'r' ∨ t = 'e' ∨ t = 'n' ∨ t = 'g' ∨ t = 't' then some () else none
+    -- the attribute list of the start element as the decoder reports it; id and type are what
+    -- the model of `getIDTyp` finds in it (a plain presence has no type attribute)
+    let own : List CorrAttrs.Attr := [⟨.none, .id, ownId⟩] ++
+      (if t = 'n' ∧ kind = .presence then [] else [⟨.none, .type, typeVal t⟩])
+    let before ← parseDecoys 'b' decoy
+    let after ← parseDecoys 'a' decoy
+    let (i?, t?) := CorrAttrs.getIDTyp (before ++ own ++ after)
+    let id ← i?
+    step cfg (settle cfg s) (.read ⟨kind, id, CorrAttrs.isResponse t?, ns, bad⟩)
   | 'H' :: r => do
     let k ← numOf r
     if s.hlog.head? = some k then some s else none
@@ -207,7 +247,10 @@ def peerAlphabet (reqs : List (Kind × Nat × Ns)) : List String :=
     let sfx := if ns == .other then "S" else ""
     let other := if k == .iq then 'm' else 'i'
     [s!"p{kc}{id}r{sfx}", s!"p{kc}{id}e{sfx}", s!"p{kc}{id}rX{sfx}", s!"p{other}{id}e{sfx}", s!"p{kc}{id}{if k == .iq then "g" else "n"}",
-     s!"p{kc}{id}r{if ns == .other then "" else "S"}"]
+     s!"p{kc}{id}r{if ns == .other then "" else "S"}",
+     -- decoys: somebody else's response / a non-response dressed up with a qualified id / type
+     s!"p{kc}9r{sfx}+qi{id % 10}b", s!"p{kc}9e{sfx}+ni{id % 10}a", s!"p{kc}{id}{if k == .iq then "t" else "n"}{sfx}+qtrb",
+     s!"p{kc}{id}e{sfx}+qi9bqtgb"]
   (per ++ ["pi9r", "pm9e"]).eraseDups
 
 /-- enabled harness actions -/
@@ -227,7 +270,7 @@ def enabled (cfg : Cfg) (reqs : List (Kind × Nat × Ns)) (g : GState) : List St
   let peers := if serveFree then
       (peerAlphabet reqs).filter fun t =>
         -- an unhandled get is answered by the serve loop itself: it needs the output lock
-        !((t.endsWith "g" || t.contains 'X') && busySending n s)
+        !((isRequestTok t || t.contains 'X') && busySending n s)
     else []
   let serve := (match s.spc with | .offering .. => if g.entered then [] else ["g"] | _ => []) ++
     (if g.handed then ["h"] else [])
@@ -335,8 +378,70 @@ def summaryR (n : Nat) (s : RSt) : String :=
   let probe := if s.hpc.isNone && !s.overflow then "live" else "stall"
   s!"out={joinList outs "/"} unh={joinList (s.unhandled.reverse.map toString)} probe={probe}"
 
+/-! `C06 wrap <api> <shape>`: the helpers that own their response (Model/CorrWrap.lean) -/
+def parseWrap (api shape : String) : Option (CorrWrap.Api × CorrWrap.Shape) := do
+  let a ← match api with
+    | "U" => some CorrWrap.Api.unmarshal | "N" => some .unmarshalNil | "V" => some .unmarshalElement
+    | "I" => some .iter | "J" => some .iterElement | _ => none
+  let addr (c : Char) : Option CorrWrap.Addr :=
+    if c = '-' then some .absent else if c = 'v' then some .valid else if c = 'x' then some .invalid else none
+  match shape.toList with
+  | [t, f, o, p] => do
+    let typ ← if t = 'r' then some CorrWrap.Typ.result else if t = 'e' then some .error else none
+    let fr ← addr f
+    let to ← addr o
+    let pl ← if p = 'n' then some CorrWrap.Payload.none else if p = 'o' then some .one else if p = 'c' then some .nested
+      else if p = 't' then some .text else if p = 'b' then some .bad else if p = 'w' then some .space else none
+    pure (a, ⟨typ, fr, to, pl⟩)
+  | _ => none
+
+/-! `C06 exp <ops>`: the listener's table of expected streams (Model/CorrExpect.lean) -/
+def keyNum (c : Char) : Option Nat := if c = 'a' then some 0 else if c = 'b' then some 1 else none
+def keyChar (k : Nat) : String := if k = 0 then "a" else "b"
+
+def parseExpOp (t : String) : Option CorrExpect.Op :=
+  match t.toList with
+  | ['A'] => some .accept
+  | ['K'] => some .close
+  | ['O', k] => do let kk ← keyNum k; pure (.openReq kk)
+  | 'X' :: r => do let i ← numOf r; pure (.cancel i)
+  | 'E' :: r => do
+    let k ← r.getLast?
+    let kk ← keyNum k
+    let i ← numOf r.dropLast
+    pure (.expect i kk)
+  | _ => none
+
+def showExpEv : CorrExpect.Ev → String
+  | .conn i k => s!"{i}c{keyChar k}"
+  | .err i => s!"{i}e"
+  | .accConn k => s!"Ac{keyChar k}"
+  | .accErr => "Ae"
+
+def insertSorted (x : String) : List String → List String
+  | [] => [x]
+  | y :: ys => if x ≤ y then x :: y :: ys else y :: insertSorted x ys
+
+def showExpEvs (l : List CorrExpect.Ev) : String :=
+  if l.isEmpty then "-" else joinList ((l.map showExpEv).foldr insertSorted []) "+"
+
 def handle (args : List String) : Option String :=
   match args with
+  | ["exp", ops] => do
+    let os ← mapM? parseExpOp (splitList ops)
+    let evs := CorrExpect.run {} os
+    let fin := CorrExpect.final {} os
+    -- the harness closes the listener at the end: nothing may be left in the hand-off
+    let probe := if fin.pending.isNone then "live" else "stall"
+    pure s!"{joinList (evs.map showExpEvs)} probe={probe}"
+  | ["wrap", api, shape] => do
+    let (a, sh) ← parseWrap api shape
+    let o := CorrWrap.call a sh
+    let b (x : Bool) : String := if x then "1" else "0"
+    -- a response nobody closed stalls the serve loop; one whose rest cannot be read ends Serve
+    let probe := if o.helperCloses + (if o.handed then 1 else 0) = 0 then "stall"
+      else if CorrWrap.serveSurvives sh then "live" else "dead"
+    pure s!"err={b o.err} handed={b o.handed} probe={probe}"
   | ["sess", reqs, trace] => do
     let rs ← parseReqs reqs
     let cfg := mkCfg rs
